@@ -90,6 +90,11 @@ pub fn check_case(model: &mut Model, case: &Case, tag: &str, rep: Option<&mut Re
             for f in &case.files {
                 t.push_str(&format!("\n[l]({})\n", crate::oracle::md::rel_url(f.trim_end_matches(".md"), &dir)));
             }
+            // … and the same references once more inside a block quote and inside a list item
+            for f in &case.files {
+                let u = crate::oracle::md::rel_url(f.trim_end_matches(".md"), &dir);
+                t.push_str(&format!("\n> [q]({})\n\n- item\n\n  [i]({})\n", u, u));
+            }
             std::fs::write(base.join(format!("{}.md", name)), &t).unwrap();
             linkers.push((name, dir));
         }
@@ -118,8 +123,10 @@ pub fn check_case(model: &mut Model, case: &Case, tag: &str, rep: Option<&mut Re
                     })
                 })
                 .ok()?;
-                if !refs.iter().any(|l| l.uri == luri) {
-                    return Some(format!("file {:?}: its backlinks {:?} do not include the note {:?} that links to it", f, refs.iter().map(|l| l.uri.as_str().to_string()).collect::<Vec<_>>(), name));
+                // three linking blocks per file: the plain reference, the quoted one, the one in a list item
+                let n = refs.iter().filter(|l| l.uri == luri).count();
+                if n != 3 {
+                    return Some(format!("file {:?}: the note {:?} links to it from 3 blocks (plain, quoted, in a list item), its backlinks name that note {} times: {:?}", f, name, n, refs.iter().map(|l| format!("{}:{}", l.uri.as_str(), l.range.start.line)).collect::<Vec<_>>()));
                 }
             }
         }
